@@ -315,6 +315,15 @@ func runRoute(t *testing.T, c spec.Case, e Em) {
 				e.Note("stale-dial-succeeded", fmt.Sprint(id))
 			}
 		}
+		if it.Reaccept {
+			// the id is dialled only once it has been accepted again: a dial that overlaps the switch-over may
+			// legitimately still reach the listener that is being closed
+			wg.Add(1)
+			accept()
+			wg.Add(1)
+			dial()
+			return
+		}
 		if it.LineUp && p.Kind == "mux" {
 			flag := &atomic.Bool{}
 			lineUpFlags.Store(id, flag)
